@@ -810,7 +810,14 @@ void Lexer::yyinput_CORE(const char*& yy,
             ++offset;
         }
 
-        yychar = *(yy += trailBytesCurCP + 1);
+        // Step over the trail bytes, but never over the end of the text (a
+        // sequence may be truncated or otherwise invalid).
+        ++yy;
+        while (trailBytesCurCP > 0 && *yy) {
+            ++yy;
+            --trailBytesCurCP;
+        }
+        yychar = *yy;
     }
     else {
         yychar = *++yy;
